@@ -462,9 +462,11 @@ impl<'a> Parser<'a> {
                 this.parse_type();
             }
 
-            // Body
+            // Body (mandatory)
             if this.check(TokenKind::BlockBegin) {
                 this.parse_block_expr();
+            } else {
+                this.expect(TokenKind::BlockBegin);
             }
         });
     }
@@ -568,9 +570,11 @@ impl<'a> Parser<'a> {
                 this.parse_type();
             }
 
-            // Body
+            // Body (mandatory)
             if this.check(TokenKind::BlockBegin) {
                 this.parse_block_expr();
+            } else {
+                this.expect(TokenKind::BlockBegin);
             }
         });
     }
@@ -1417,6 +1421,11 @@ impl<'a> Parser<'a> {
                 } else {
                     this.parse_expr();
                 }
+            } else {
+                this.add_error(ParserError::unexpected_eof(
+                    this.current_token_index(),
+                    "expression",
+                ));
             }
         });
     }
